@@ -889,3 +889,5 @@ SELFTEST = [
                ("dropshot/src/extractor/body.rs", "    let content = match (expected_content_type, body_content_type) {", "    let content = match (rqctx.endpoint.body_content_type.clone(), body_content_type) {")],
      "why": "behaviour-preserving: local inlined"},
 ]
+
+LEVEL_TEXT += " Also (R7): every framework-generated error on the endpoint path is converted through the endpoint's declared error type before it becomes a response, so its body matches the documented error schema of a custom error type."
